@@ -200,6 +200,9 @@ fn objstm_answer(res: &impl Resolve, id: u64) -> Answer {
 }
 
 pub fn ops_digest(ops: &[ContentOp]) -> String {
+    if crate::digest::LIGHT.with(|l| l.get()) {
+        return format!("ops n={}", ops.len());
+    }
     format!("ops n={} h={:016x}", ops.len(), crate::digest::hash_str(&crate::digest::canon(&format!("{:?}", ops))))
 }
 
